@@ -1,5 +1,7 @@
 from __future__ import annotations
 
+from copy import deepcopy
+
 import numpy as np
 
 from Solverz.utilities.type_checker import is_number
@@ -71,10 +73,11 @@ class daesol:
         if self.Y is not None:
             self.Y.append(sol.Y)
         else:
-            self.Y = sol.Y
+            # own copy: the next append extends self.Y in place and must not extend sol.Y with it
+            self.Y = deepcopy(sol.Y)
         self.te = np.concatenate([self.te, sol.te]) if self.te is not None else sol.te
         if self.ye is not None:
             self.ye.append(sol.ye)
         else:
-            self.ye = sol.ye
+            self.ye = deepcopy(sol.ye)
         self.ie = np.concatenate([self.ie, sol.ie]) if self.ie is not None else sol.ie
